@@ -417,6 +417,10 @@ def mutants(decls, rng):
                 out.append(("P0014", "initial value not in enumeration %s" % en, with_decl(i, nd)))
             vl = next(j for j, l in enumerate(d.lines) if l in ("VAR", "VAR_INPUT"))
             nd = d.copy()
+            std = rng.choice(["TON", "tof", "Tp", "CTU", "ctud_LINT", "R_TRIG", "sr"])
+            nd.lines.insert(next(j for j, l in enumerate(d.lines) if l == "VAR") + 1, "  std_inst : %s;" % std)
+            out.append(("P0029", "instance of the unsupported standard function block %s in %s" % (std, d.name), with_decl(i, nd)))
+            nd = d.copy()
             nd.lines.insert(vl + 1, "  untyped_var : NoSuchType;")
             out.append(("P0022", "variable of an undeclared type in %s" % d.name, with_decl(i, nd)))
         if d.kind == "configuration" and d.info.get("global"):
